@@ -1,9 +1,9 @@
 #!/usr/bin/env python3
 """Regenerates MANIFEST.json from checkcfg.py (claimed checks) and NOT_CLAIMED below."""
 import json, sys
-sys.path.insert(0, '/verif')
+sys.path.insert(0, __import__('os').path.dirname(__import__('os').path.abspath(__file__)))
 from checkcfg import PROPS, NOT_CLAIMED
-ids = [json.loads(l)["id"] for l in open('/verif/properties.jsonl')]
+ids = [json.loads(l)["id"] for l in open(__import__('os').path.dirname(__import__('os').path.abspath(__file__)) + '/properties.jsonl')]
 checks = []
 for pid in ids:
     if pid not in PROPS:
@@ -32,5 +32,5 @@ m = dict(
     not_applicable=na,
     notes="See DESIGN.md. Every check: regenerate Gen/*.lean from /repo, lake build FP.Props.<id>, audit axioms, build harness by overlay from the current tree, run correspondence + direct law oracles, decide.",
 )
-json.dump(m, open('/verif/MANIFEST.json', 'w'), indent=1)
+json.dump(m, open(__import__('os').path.dirname(__import__('os').path.abspath(__file__)) + '/MANIFEST.json', 'w'), indent=1)
 print("checks:", [c["property_id"] for c in checks], "not claimed:", [n["property_id"] for n in na])
